@@ -58,7 +58,7 @@ NewEntry(nm, kind, m, lv, large, enc, dt, mode, hdr, crc, us, cs) ==
    [name |-> nm, kind |-> kind, method |-> m, level |-> lv, large |-> large, enc |-> enc,
     dt |-> dt, mode |-> mode, sys |-> 3, crc |-> crc, usize |-> us, csize |-> cs,
     hdr |-> hdr, dstart |-> hdr + HdrLen(nm, large), lx |-> <<>>, cx |-> <<>>, fresh |-> TRUE,
-    rawsrc |-> "", klen |-> 0]
+    rawsrc |-> "", klen |-> 0, elo |-> 0, lname |-> nm.id]
 
 ZeroCrc == "00000000"
 LastIx(w) == Len(w.files)
@@ -67,7 +67,7 @@ Last(w)   == w.files[Len(w.files)]
 Init0 == [comp |-> 0, enc |-> FALSE, wtf |-> FALSE, wtef |-> FALSE, wcef |-> FALSE, wraw |-> FALSE,
           files |-> <<>>, xbuf |-> <<>>, xpre |-> <<>>, stats |-> [start |-> 0, len |-> 0, crc |-> ZeroCrc], gap |-> 0,
           comment |-> [id |-> EmptyId, len |-> 0], pos |-> 0, dead |-> FALSE, foreign |-> FALSE,
-          fin |-> FALSE, cdstart |-> 0, al |-> 0, gaps |-> <<>>]
+          fin |-> FALSE, cdstart |-> 0, al |-> 0, gaps |-> <<>>, strict |-> TRUE, baselen |-> 0]
 
 Ok(w) == [w |-> w, ok |-> TRUE]
 Er(w) == [w |-> w, ok |-> FALSE]
@@ -211,6 +211,30 @@ RawCopyF(w, nm, src, cs) ==
       ELSE Ok([r.w EXCEPT !.wtf = TRUE, !.wraw = TRUE, !.pos = r.w.pos + src.csize,
                           !.files[Len(r.w.files)].rawsrc = src.rawid])
 
+(***************************************************************************)
+(* new_append: the writer continues an existing archive.  L is the base as *)
+(* the independent lexer sees it.  Entries keep their (absolute) header    *)
+(* offsets; the directory is re-emitted from what a reader of the base     *)
+(* knows: name (as decoded, re-encoded as UTF-8), method, time, CRC, sizes, *)
+(* attributes and central extra                                            *)
+(* data (file comments are not carried).  The sink is positioned on the    *)
+(* old directory; the last old entry must not be patched (wraw).           *)
+(***************************************************************************)
+SysOf(vmade) == LET s == vmade \div 256 IN IF s \in {0, 3} THEN s ELSE 4
+OldEntry(L, i) ==
+   LET c == L.cd[i] lf == L.lf[i] IN
+   [name |-> c.dname, kind |-> "old", method |-> c.method, level |-> NoLevel, large |-> c.zcount > 0,
+    enc |-> FEnc(c.flags), dt |-> <<c.date, c.time>>, mode |-> c.eattr_hi, sys |-> SysOf(c.vmade), crc |-> c.crc,
+    usize |-> c.usize, csize |-> c.csize, hdr |-> L.prefix + c.off, dstart |-> lf.dstart,
+    lx |-> <<>>, cx |-> [j \in 1..Len(c.extra) |-> [id |-> c.extra[j].id, len |-> c.extra[j].len, h |-> c.extra[j].h]],
+    fresh |-> FALSE, rawsrc |-> lf.rawcrc, klen |-> 0, elo |-> c.eattr_lo, lname |-> lf.name.id]
+NewAppendF(L, strict) ==
+   [Init0 EXCEPT !.files = [i \in 1..NEntries(L) |-> OldEntry(L, i)],
+                 !.comment = [id |-> L.eocd.comment.id, len |-> L.eocd.comment.len],
+                 !.pos = L.cd_start, !.wraw = TRUE, !.foreign = TRUE, !.strict = strict, !.baselen = L.len,
+                 !.gaps = (IF L.prefix > 0 THEN <<[from |-> 0, to |-> L.prefix]>> ELSE <<>>)
+                          \o [j \in 1..Len(L.gaps) |-> [from |-> L.gaps[j].from, to |-> L.gaps[j].to]]]
+
 \* finalize: central directory + end records
 CdLen(f) == CDHSize + f.name.len + CentralZ64Len(f.usize, f.csize, f.hdr) + XBytes(f.cx)
 CdSize(fs) == SumSeq([i \in 1..Len(fs) |-> CdLen(fs[i])])
@@ -292,7 +316,7 @@ ExpCentral(f, at) ==
     usize |-> f.usize, csize |-> f.csize, off |-> f.hdr, nlen |-> f.name.len, name |-> f.name,
     xlen |-> CentralZ64Len(f.usize, f.csize, f.hdr) + XBytes(f.cx), klen |-> 0, xjunk |-> 0,
     zcount |-> IF CentralZ64Len(f.usize, f.csize, f.hdr) > 0 THEN 1 ELSE 0, z64_exact |-> TRUE,
-    eattr_hi |-> f.mode, eattr_lo |-> 0, vmade |-> f.sys * 256 + 46, extra |-> f.cx]
+    eattr_hi |-> f.mode, eattr_lo |-> f.elo, vmade |-> f.sys * 256 + 46, extra |-> f.cx]
 ExpLocal(f) ==
    [ok |-> TRUE, pos |-> f.hdr, flags |-> FlagsOf(f), method |-> f.method, time |-> f.dt[2], date |-> f.dt[1],
     crc |-> f.crc, usize |-> f.usize, csize |-> f.csize, nlen |-> f.name.len, name |-> f.name,
